@@ -788,6 +788,19 @@ pub fn run(tier: Tier) -> i32 {
         rep.bound("zero_sized_function_leg", format!("{n} call sequences <= 4 over three unit-struct functions x two arguments, two registration orders"));
         rep.absorb(acc);
     }
+    // argument crowd (see crowd.rs): one evaluation, one call of a cacheable identity function per
+    // member of a pool of pairwise different arguments built from the value pools, the near-equal
+    // families and the enumerated forgeries; front to back and back to front
+    {
+        let mut members = 0;
+        for reverse in [false, true] {
+            let r = crate::checks::crowd::run_crowd("C11", usize::MAX, reverse);
+            members = r.members;
+            n_cases += 1;
+            rep.absorb(r.acc);
+        }
+        rep.bound("argument_crowd", format!("{members} pairwise different arguments (value pools, near-equal families x 6 wrappings, forged strings / keys over 7 entry separators x 5 key separators x 6 quotings x spellings of 5 scalars), one call each in one evaluation, both orders"));
+    }
     // functions that return none: cached like any other result, counted by the invocation log
     {
         let fs = [0usize, 5, 6];
@@ -917,6 +930,9 @@ pub fn run(tier: Tier) -> i32 {
 }
 
 pub fn replay(case: &serde_json::Value) -> i32 {
+    if case.get("kind").and_then(|k| k.as_str()) == Some("argument-crowd") {
+        return crate::checks::crowd::replay(case);
+    }
     if case.get("kind").and_then(|k| k.as_str()) == Some("zero-sized-functions") {
         let (acc, n) = zst_leg();
         println!("re-ran the {n} zero-sized-function sequences");
